@@ -371,6 +371,77 @@ def rule_no_shrink_while_iterating(run, prog):
                                                f"(floors 30 / 17)")
 
 
+def eval_unrecognised_fatal(prog, rn):
+    """Registry.run interpreted (minieval; Context.peek_token / check_token / pop_tokens from the tree, a stub run_rules that
+    recognises `REC` lines and empty lines only) on every file of <= 4 lines over {recognised, unrecognised}, with and without
+    a final newline, debug level 0: CParsingError must come out iff some line is unrecognised.  -> [problems]; raises
+    minieval.Unsupported when run() is outside the interpreter's subset."""
+    import collections
+    import itertools
+    from ..minieval import Obj, Raised, Unsupported
+    from ..stubrun import RUNTIME_ERRORS, StubContext, evaluator_for, tok
+    problems = []
+    n_runs = 0
+    for n in range(1, 5):
+        for kinds in itertools.product("RU", repeat=n):
+            for final_nl in (True, False):
+                toks = []
+                for i, k in enumerate(kinds):
+                    toks.append(tok("REC" if k == "R" else "UNK", i + 1, 1, "x"))
+                    if i < n - 1 or final_nl:
+                        toks.append(tok("NEWLINE", i + 1, 2))
+                sc = StubContext(prog, toks, history=[])
+                ev = evaluator_for(prog, "Registry", sc, max_steps=60000)
+                ctx = sc.obj
+                prim = Obj("PrimaryClass", name="IsStub", scope=())
+
+                def run_rules(context, rule, _ctx=ctx):
+                    if isinstance(rule, Obj) and rule._cls == "PrimaryClass" and _ctx.tokens:
+                        t0 = _ctx.tokens[0]
+                        if t0.type == "REC":
+                            return (True, 2 if len(_ctx.tokens) > 1 and _ctx.tokens[1].type == "NEWLINE" else 1)
+                        if t0.type == "NEWLINE":
+                            return (True, 1)
+                    return (False, 0)
+                ev.natives[("Registry", "run_rules")] = run_rules
+                ev.natives[("Context", "update")] = lambda *a: None
+                ev.globals["rules"] = Obj("Rules", primaries=[prim], checks=[], all=[])
+                me = Obj("Registry", dependencies=collections.defaultdict(list))
+                raised = None
+                try:
+                    ev.invoke(prog.method("Registry", "run").node, [me, ctx], {})
+                except Raised as e:
+                    raised = e.name
+                except Unsupported as e:
+                    if "step budget" in str(e):
+                        problems.append(f"Registry.run does not terminate on a file of lines {''.join(kinds)}")
+                        continue
+                    raise
+                except RUNTIME_ERRORS as e:
+                    raise Unsupported(f"Registry.run fails on the stub file: {type(e).__name__}: {e}")
+                n_runs += 1
+                want = "U" in kinds
+                desc = f"lines {'/'.join('unrecognised' if k == 'U' else 'recognised' for k in kinds)}" + \
+                       ("" if final_nl else " (no final newline)")
+                if want and raised != "CParsingError":
+                    problems.append(f"{desc}: the run ends normally" + (f" (raises {raised})" if raised else "")
+                                    + ", expected the fatal CParsingError")
+                elif not want and raised is not None:
+                    problems.append(f"{desc}: raises {raised}")
+                if ctx.tokens and raised is None:
+                    problems.append(f"{desc}: {len(ctx.tokens)} token(s) are left unconsumed")
+    return sorted(set(problems), key=problems.index), n_runs
+
+
+def _ctx_receiver(fn, e) -> bool:
+    """Does *e* denote the context (also through a local alias: `c = context`; `ctx = self.context`)?"""
+    from ..dataflow import expand_aliases
+    t = text(expand_aliases(fn, e))
+    if t in ("context", "self.context", "ctx"):
+        return True
+    return t == "self" and fn.cls is not None and fn.cls.name == "Context"
+
+
 def check(run, prog):
     cg = callgraph(prog)
     # ---- R-7.1 ownership -----------------------------------------------------------------
@@ -392,7 +463,7 @@ def check(run, prog):
             for t in tgts:
                 for sub in ([t] + (list(t.elts) if isinstance(t, (ast.Tuple, ast.List)) else [])):
                     s = text(sub)
-                    if isinstance(sub, ast.Attribute) and sub.attr == "tokens" and text(sub.value) in ("self", "context", "self.context", "ctx"):
+                    if isinstance(sub, ast.Attribute) and sub.attr == "tokens" and _ctx_receiver(fn, sub.value):
                         writers.append((fn, n))
                     if isinstance(sub, ast.Subscript) and isinstance(sub.value, ast.Attribute) and sub.value.attr == "tokens":
                         mutators.append((fn, n))
@@ -400,7 +471,7 @@ def check(run, prog):
                         scope_writers.append((fn, n))
             if isinstance(n, ast.Call) and isinstance(n.func, ast.Attribute) and n.func.attr in LIST_MUTATORS \
                     and isinstance(n.func.value, ast.Attribute) and n.func.value.attr == "tokens" \
-                    and text(n.func.value.value) in ("self", "context", "self.context", "ctx"):
+                    and _ctx_receiver(fn, n.func.value.value):
                 mutators.append((fn, n))
     allowed_w = {"context.py::Context.__init__", "context.py::Context.pop_tokens"}
     bad = [(f, n) for f, n in writers if f.key not in allowed_w]
@@ -422,13 +493,22 @@ def check(run, prog):
            bad[0][1] if bad else None)
 
     # ---- R-7.2 unrecognised => fatal ---------------------------------------------------------
-    run.rule("R-7.2", "typestate by abstract interpretation of Registry.run (debug level fixed at 0): after a `blind` "
+    run.rule("R-7.2", "Registry.run interpreted by the analyser on every stub file of <= 4 lines over {recognised, "
+             "unrecognised} x {final newline or not}, debug level 0: the fatal CParsingError comes out iff a line is "
+             "unrecognised, every token is consumed.  Fallback when run() is outside the interpreter's subset: typestate by "
+             "abstract interpretation of its CFG: after a `blind` "
              "pop_tokens (one that can be reached without a primary having matched in that iteration) no path reaches the "
              "normal end of the function without raising CParsingError; the local marker variables that remember the "
              "unrecognised tokens are tracked with the abstract values None / empty / non-empty / number-possibly-zero",
              floor=1)
     rn = prog.fn("registry.py::Registry.run")
-    ok, why, stats = unrecognised_is_fatal(prog, rn)
+    from ..minieval import Unsupported
+    try:
+        probs, n_runs = eval_unrecognised_fatal(prog, rn)
+        ok, why, stats = not probs, "; ".join(probs[:3]), {"decided_by": "interpretation of Registry.run on stub files", "files": n_runs}
+    except Unsupported as ex:
+        run.note(f"R-7.2: Registry.run not interpreted on stub files ({ex}); abstract interpretation of its CFG used")
+        ok, why, stats = unrecognised_is_fatal(prog, rn)
     run.ob("R-7.2", f"{rn.key}::unrecognised->fatal", ok,
            "text that no primary recognises can be consumed and the run still reaches the normal end of Registry.run in "
            f"normal (debug == 0) mode: {why}", rn.node, **stats)
